@@ -364,12 +364,12 @@ func init() {
 		if c.thorough {
 			reps = 25
 		}
-		scenarios := []string{"lut-simultaneous", "lut-staggered", "lut-orders", "images", "images-inplace", "loaders", "colour-math", "mixed"}
+		scenarios := []string{"lut-simultaneous", "lut-staggered", "lut-orders", "images", "images-inplace", "loaders", "shared-values", "colour-math", "mixed"}
 		for rep := 0; rep < reps; rep++ {
 			for _, sc := range scenarios {
 				for _, cfg := range [][2]int{{2, 1}, {8, 4}, {64, 16}, {8, 16}} {
 					n, procs := cfg[0], cfg[1]
-					if !c.thorough && (sc == "loaders" || sc == "mixed" || sc == "colour-math") && n == 64 {
+					if !c.thorough && (sc == "loaders" || sc == "shared-values" || sc == "mixed" || sc == "colour-math") && n == 64 {
 						continue
 					}
 					seed := c.rng.Int63()
